@@ -8,8 +8,8 @@ from harness.grouplib import COQ_HEADER, COQ_RUNNER, COQ_TYPES, SHARD
 PROP = 'C11'
 PROPS_FILE = 'Props/C11.v'
 PARALLEL = False
-RULE = ('real compute_features_2d(axis=0) / BycycleGroup.fit on 2-6 pairwise different signals, shared dict vs per-row list '
-        'of pairwise different option sets, n_jobs in {1, 2, rows, rows+3}, progress in {None, "tqdm"}, return_samples both; '
+RULE = ('real compute_features_2d(axis=0) / BycycleGroup.fit on 2-7 pairwise different signals, shared dict vs per-row list '
+        'of pairwise different option sets, every n_jobs from 1 to rows+3 and -1 (so that rows are not a multiple of the job count), progress in {None, "tqdm"}, return_samples both; '
         'the worker is wrapped (before the fork) to sleep so that earlier rows finish later (reverse / first-slow / zigzag '
         'schedules); every returned table is matched against the tables of all (option set, row) pairs computed directly, '
         'giving a placement vector compared with the model; non-trivial = >= 3 rows and a perturbed schedule or a per-row list')
@@ -20,16 +20,16 @@ TRUST = ['Pool.imap is modelled as a reorder buffer keyed by submission index']
 
 def cases(rng, tier):
     out = []
-    n = 36 if tier == 'quick' else 360
+    n = 60 if tier == 'quick' else 500
     for _ in range(n):
-        rows = rng.choice([2, 3, 3, 4, 5, 6])
+        rows = rng.choice([2, 3, 4, 5, 5, 6, 7])
         per_row = rng.random() < 0.55
         kw = rng.sample(range(len(gl.KW_POOL)), rows) if per_row else None
         shared = rng.randrange(len(gl.KW_POOL))
         out.append({'kind': 'g2d/' + ('list' if per_row else 'dict'), 'rows': rows, 'sig_ids': rng.sample(range(40), rows),
-                    'kw': kw, 'shared': shared, 'n_jobs': rng.choice([1, 2, rows, rows + 3, -1]),
+                    'kw': kw, 'shared': shared, 'n_jobs': rng.choice([1, 2, 3, 4, max(1, rows - 1), max(1, rows - 2), rows, rows + 3, -1]),
                     'progress': rng.choice([None, None, 'tqdm']), 'schedule': rng.choice(['reverse', 'first_slow', 'zigzag', 'none']),
-                    'return_samples': rng.random() < 0.7, 'via': (rng.choice(['func', 'func', 'group']) if kw is None else 'func')})
+                    'return_samples': rng.random() < 0.7, 'layout': rng.choice(['C', 'C', 'F', 'view']), 'via': (rng.choice(['func', 'func', 'group']) if kw is None else 'func')})
     return out
 
 
@@ -37,7 +37,7 @@ def run_impl(c):
     import io, contextlib
     from bycycle.features import compute_features
     from bycycle.group import compute_features_2d
-    sigs = np.array([gl.make_sig(k) for k in c['sig_ids']])
+    sigs = gl.relayout(np.array([gl.make_sig(k) for k in c['sig_ids']]), c.get('layout', 'C'))
     if c['via'] == 'group' and c['kw'] is not None:
         c = dict(c, via='func')
     kwobj = [dict(gl.KW_POOL[a]) for a in c['kw']] if c['kw'] is not None else dict(gl.KW_POOL[c['shared']])
